@@ -290,6 +290,9 @@ _dbg_gen, _dbg_chk = env.debug_dimension(0.1)
 gen_case = _dbg_gen(gen_case)
 check_case = _dbg_chk(check_case)
 
+# no clause depends on the coordinate unit: 8 % of the planar cases are expressed in a small unit (everything x 2^-7..2^-17)
+gen_case = mcase.scale_dimension(0.08)(gen_case)
+
 TECHNIQUE = "runtime monitoring: oracle over the reported best path against the raw graph after every public call of generated histories (both backends)"
 LEVEL_TEXT = ("{Q} (quick) / {T} (thorough) histories; every state of every reported best path must be a node/directed edge of the raw graph and every "
               "consecutive pair a move the graph offers; the nodes-only view must be computable, without immediate repeats and pairwise adjacent "
